@@ -146,13 +146,31 @@ Theorem C17_merge_source_order : forall o rs i,
   match nth_error rs i with Some r => map (fun d => (i, d)) (doc_ids_alive r) | None => [] end.
 Proof. exact kmerge_mapping_source_order. Qed.
 
-(* F171 (known finding): a Multivalued source with a live value-less document is stacked and the
-   null lands in the middle: sources sorted, result not sorted. *)
+(* F171: with the pre-fix test (`!= Cardinality::Optional`: Multivalued columns not scanned) a Multivalued
+   source with a live value-less document is declared null-free; windows disjoint => stacked; sources sorted,
+   result not sorted.  The theorems above exclude exactly this class; for the source shape pinned now
+   (SORT_LIVE_NULLS_SCANS_MULTIVALUED) the class is empty iff the pin is 1. *)
 Theorem C17_stack_multivalued_refuted : exists readers,
-  has_f171 readers = true /\
+  has_f171_gen false readers = true /\
   forallb (fun r => wf_reader r && reader_sorted Asc r) readers = true /\
-  sorted_keys Asc (merged_keys Asc false readers) = false.
-Proof. exists f171_readers. destruct f171_witness as (A & B & _ & D). auto. Qed.
+  windows_all (fun c1 c2 => N.leb (max_value c1) (min_value c2)) readers = true /\
+  existsb (segment_has_live_nulls_gen false) readers = false /\
+  sorted_keys Asc (map (addr_key readers) (stack_mapping readers)) = false.
+Proof. exists f171_readers. destruct f171_witness as (A & B & C & D & _ & F). auto. Qed.
+
+(* For the code as it is now the excluded class is empty: the merge theorems hold for ALL sorted sources. *)
+Theorem C17_segment_sorted_merge_all : forall o ordinals readers,
+  SORT_LIVE_NULLS_SCANS_MULTIVALUED = 1 ->
+  (forall r, In r readers -> wf_reader r = true /\ reader_sorted o r = true) ->
+  sorted_keys o (merged_keys o ordinals readers) = true.
+Proof.
+  intros o ordinals readers Hpin Hok. apply merge_sorted; [exact Hok|].
+  unfold has_f171, has_f171_gen, f171_reader_gen, scans_multivalued. rewrite Hpin. cbn [N.eqb negb andb].
+  induction readers as [|r rs IH]; [reflexivity|]. cbn [existsb]. apply IH. intros x Hx. apply Hok. now right.
+Qed.
+
+Example pinned_shape_scans_multivalued : SORT_LIVE_NULLS_SCANS_MULTIVALUED = 1.
+Proof. vm_compute. reflexivity. Qed.
 
 (* non-vacuity: a disjoint pair is stacked, an overlapping pair is k-way merged, both sorted *)
 Example merge_examples :
@@ -225,6 +243,7 @@ Print Assumptions C17_segment_sorted_merge.
 Print Assumptions C17_merge_keeps_live_documents.
 Print Assumptions C17_merge_source_order.
 Print Assumptions C17_stack_multivalued_refuted.
+Print Assumptions C17_segment_sorted_merge_all.
 Print Assumptions C17_i64_key_order.
 Print Assumptions C17_f64_key_order.
 Print Assumptions C17_numeric_spec_is_key_order.
